@@ -661,7 +661,8 @@ pub fn run_scenario(sc: &Value) -> Vec<Value> {
         let mut m = Map::new();
         m.insert("ev".into(), json!("SinkOps"));
         m.insert("ops".into(), json!(s.ops));
-        m.insert("faulted".into(), json!(s.faulted.map(|(k, kind)| json!([k, kind]))));
+        // (TLC's JSON reader has no null: "no fault" is the empty list)
+        m.insert("faulted".into(), s.faulted.map(|(k, kind)| json!([k, kind])).unwrap_or(json!([])));
         m.insert("drop_panic".into(), json!(drop_panic));
         drop(s);
         ex.ev(m);
